@@ -61,7 +61,7 @@ pub(crate) fn parse(range: Option<&HeaderValue>, len: u64) -> ResolvedRanges {
                 Err(_) => return ResolvedRanges::None, // unparseable
                 Ok(l) => l,
             };
-            if last >= len {
+            if last == 0 || last >= len {
                 continue; // this range is not satisfiable; skip.
             }
             ranges.push((len - last)..len);
